@@ -161,17 +161,25 @@ theorem decode_join (puny : Str → Str) (ps : List Str) (hne : ps ≠ []) (hd :
   rw [splitOn_join '.' ps hne hd]
   rfl
 
-theorem decodePiece_lower_label (puny : Str → Str) (hp : PunyLabelSafe puny) {l : Str} (h : Label l) :
+/-- one piece: only the value of the decoder on `lower l` itself is used, and only when it
+starts with `xn--` -/
+theorem decodePiece_lower_label_on (puny : Str → Str) {l : Str} (h : Label l)
+    (hp : (lower l).take 4 = "xn--".toList → Label (puny (lower l))) :
     Label (lower (decodePiece puny (lower l))) := by
   unfold decodePiece
+  have e : lower ((lower l).take 4) = (lower l).take 4 := by
+    have : (lower l).take 4 = lower (l.take 4) := by simp [lower, List.map_take]
+    rw [this, lower_lower]
   split
   · rename_i hh
-    have e : lower ((lower l).take 4) = (lower l).take 4 := by
-      have : (lower l).take 4 = lower (l.take 4) := by simp [lower, List.map_take]
-      rw [this, lower_lower]
-    rw [e, List.take_append_drop]
-    exact label_lower (hp _ (label_lower h))
+    rw [e] at hh ⊢
+    rw [List.take_append_drop]
+    exact label_lower (hp hh)
   · rw [lower_lower]; exact label_lower h
+
+theorem decodePiece_lower_label (puny : Str → Str) (hp : PunyLabelSafe puny) {l : Str} (h : Label l) :
+    Label (lower (decodePiece puny (lower l))) :=
+  decodePiece_lower_label_on puny h (fun _ => hp _ (label_lower h))
 
 theorem decodePiece_tld (puny : Str → Str) {t : Str} (h : '-' ∉ t) : decodePiece puny t = t := by
   unfold decodePiece
@@ -267,9 +275,20 @@ theorem lang_host_no_x_of_ip_lh {H : Str} (h : Lang ipRe H ∨ Lang lhRe H) : 'x
         (fun C c hC hc => CharClass.avoids_sound hC hc) lhRe_no_x h
   exact ⟨fun hm => key _ hm (by decide), fun hm => key _ hm (by decide)⟩
 
-/-- **the canonical host is a host again** (under `PunyLabelSafe`), and its last label is the
-last label of the lower-cased host -/
-theorem host_canon (puny : Str → Str) (hp : PunyLabelSafe puny) {H : Str} (hH : Lang hostRe H) :
+/-- the decoder maps to labels those punycode labels that OCCUR in the (lower-cased) host `h`:
+the pieces of `h.split(".")` that start with `xn--`.  This is all `host_canon_on` needs, and unlike `PunyLabelSafe` it is
+satisfied by CPython's codec on every host none of whose labels decodes to a string with a
+leading / trailing hyphen (or another character outside the label classes) -/
+def PunyLabelSafeOn (puny : Str → Str) (h : Str) : Prop :=
+  ∀ l ∈ splitOn h '.', l.take 4 = "xn--".toList → Label l → Label (puny l)
+
+theorem PunyLabelSafe.on {puny : Str → Str} (hp : PunyLabelSafe puny) (h : Str) :
+    PunyLabelSafeOn puny h := fun l _ _ hl => hp l hl
+
+/-- **the canonical host is a host again** when the decoder maps the labels that occur in the
+lower-cased host to labels, and its last label is the last label of the lower-cased host -/
+theorem host_canon_on (puny : Str → Str) {H : Str} (hH : Lang hostRe H)
+    (hp : PunyLabelSafeOn puny (lower H)) :
     Lang hostRe (canonHost puny (lower H)) ∧
       lastLabel (canonHost puny (lower H)) = lastLabel (lower H) := by
   rcases lang_host_iff.mp hH with h | h | h
@@ -281,6 +300,20 @@ theorem host_canon (puny : Str → Str) (hp : PunyLabelSafe puny) {H : Str} (hH 
     exact ⟨lang_lower hH hostRe_lowerClosed hostRe_anchorFree, rfl⟩
   · obtain ⟨ls, t, d, hne, hls, ht, rfl⟩ := lang_names_iff.mp h
     rw [canonHost_names puny ls t d hls ht]
+    -- the pieces of the lower-cased host
+    have hsplit : splitOn (lower (namesStr ls t d)) '.' = pieces (ls.map lower) (lower t) d := by
+      rw [lower_namesStr, namesStr_eq_join]
+      apply splitOn_join
+      · simp [pieces]
+      · intro p hp'
+        simp only [pieces, List.mem_append, List.mem_map, List.mem_cons] at hp'
+        rcases hp' with ⟨l, hl, rfl⟩ | rfl | hp'
+        · exact label_no_dot (label_lower (hls l hl))
+        · exact (tld_no_dot_dash (tld_lower ht)).1
+        · cases d
+          · simp at hp'
+          · simp only [↓reduceIte, List.mem_cons, List.not_mem_nil, or_false] at hp'
+            subst hp'; simp
     constructor
     · apply lang_host_iff.mpr
       right; right
@@ -289,9 +322,20 @@ theorem host_canon (puny : Str → Str) (hp : PunyLabelSafe puny) {H : Str} (hH 
       intro l hl
       simp only [List.mem_map] at hl
       obtain ⟨l0, hl0, rfl⟩ := hl
-      exact decodePiece_lower_label puny hp (hls l0 hl0)
+      refine decodePiece_lower_label_on puny (hls l0 hl0)
+        (fun hx => hp _ ?_ hx (label_lower (hls l0 hl0)))
+      rw [hsplit]
+      simp only [pieces, List.mem_append, List.mem_map]
+      exact Or.inl ⟨l0, hl0, rfl⟩
     · rw [lower_namesStr, lastLabel_names _ _ _ (by simpa using hne) (tld_no_dot_dash (tld_lower ht)).1,
         lastLabel_names _ _ _ (by simpa using hne) (tld_no_dot_dash (tld_lower ht)).1]
+
+/-- **the canonical host is a host again** (under `PunyLabelSafe`), and its last label is the
+last label of the lower-cased host -/
+theorem host_canon (puny : Str → Str) (hp : PunyLabelSafe puny) {H : Str} (hH : Lang hostRe H) :
+    Lang hostRe (canonHost puny (lower H)) ∧
+      lastLabel (canonHost puny (lower H)) = lastLabel (lower H) :=
+  host_canon_on puny hH (hp.on _)
 
 /-! ## special hosts have no punycode label -/
 
